@@ -5,6 +5,7 @@ import json
 import os
 
 import gen_errmap
+import go2lean_c12
 import vlib
 
 PID = "C12"
@@ -377,6 +378,14 @@ def run(R):
         except gen_errmap.ExtractError as e:
             tie_error = str(e)
     lean_ok = vlib.step_lean(R, PID)
+    go2lean_c12.step(R)
+    try:
+        _run(R, exe, lean_ok, tie_error, facts)
+    finally:
+        go2lean_c12.report(R)
+
+
+def _run(R, exe, lean_ok, tie_error, facts):
     if exe is None:
         R.violation("harness does not build against /repo (API used by the correspondence check changed)",
                     {"build_log": R.harness_log[-3000:]}, no_input=True)
